@@ -93,6 +93,8 @@ type CWorldCfg struct {
 	Handshake   func(ctx context.Context) error
 	Monitor     udpClient.InactivityMonitor
 	CloseSocket bool
+	// OwnSocket: the application owns the socket (datagram transports; on stream transports leave out WithCloseSocket)
+	OwnSocket bool
 	PreStart    func(sc *SimConn) // stream transports: runs before the library gets the socket
 }
 
@@ -104,6 +106,7 @@ func NewCWorld(e *Env, c CWorldCfg) *CWorld {
 			if c.Monitor != nil {
 				u.Monitor = c.Monitor
 			}
+			u.OwnSocket = c.OwnSocket
 			if c.UDPMod != nil {
 				c.UDPMod(u)
 			}
@@ -152,7 +155,7 @@ func NewCWorld(e *Env, c CWorldCfg) *CWorld {
 			monitor = c.Monitor
 		}
 		l := coapNet.NewConn(w.PC)
-		session := dtlsServer.NewSession(cfg.Ctx, l, cfg.MaxMessageSize, cfg.MTU, true)
+		session := dtlsServer.NewSession(cfg.Ctx, l, cfg.MaxMessageSize, cfg.MTU, !c.OwnSocket)
 		cc := udpClient.NewConnWithOpts(session, &cfg, udpClient.WithBlockWise(createBlockWise), udpClient.WithInactivityMonitor(monitor))
 		go func() { _ = cc.Run() }()
 		e.OnCleanup(func() { _ = cc.Close() })
